@@ -44,6 +44,7 @@ def run(tier, seed):
     cx.assumptions += ["mass matrices of sfermions, sneutrinos, charginos and neutralinos are written in Trace_C04.tla from the Lagrangian; "
                        "for the Higgs sectors (soft masses fixed internally by the tadpole equations) the tree-level identities are checked instead",
                        "1/sqrt(2) and sqrt(3/5) enter as dyadic constants correct to 1e-16; tolerance 1e-11 of the matrix norm"]
+    cx.selftest_corruption("Trace_C04.tla", shards[0], lambda ev: ev["mass"].get("MCha_00") if ev["e"] == "Spectrum" and ev["exc"] == "" else None, "Cha|Reconstruct|Chargino")
     return cx.finish(rule="classes enumerated by TLC (Cases.tla: C04Cases, 2048; quick: seeded subset of 176) concretised with random "
                           "magnitudes and set through the setters of MSSMNoFV_onshell_mass_eigenstates; distinct_nontrivial = distinct "
                           "classes whose spectrum was calculated")
